@@ -11,6 +11,11 @@ def bptcOut : Except Bptc.Err Bits → String
   | .ok b => bitsToString b
   | .error .assertion => "ERR AssertionError"
 
+/-- rows of a table, separated by `/` -/
+def bptcRowsOut : Except Bptc.Err (List Bits) → String
+  | .ok rows => "/".intercalate (rows.map bitsToString)
+  | .error .assertion => "ERR AssertionError"
+
 /-- "-" encodes the empty bit string -/
 def bptcBits (s : String) : Option Bits := if s == "-" then some [] else bitsOfString s
 
@@ -30,6 +35,12 @@ def bptcOp (op : String) (args : List String) : Option String :=
   | "bptc.deinterleave_all", [w] => do
     let w ← bptcBits w
     some (bptcOut (Bptc.deinterleaveAllBits w))
+  | "bptc.rows", [m] => do
+    let m ← bptcBits m
+    some (bptcRowsOut (Bptc.payloadRows m))
+  | "bptc.table", [w] => do
+    let w ← bptcBits w
+    some (bptcRowsOut (Bptc.receivedTable w))
   | _, _ => none
 
 /-! ### histories (`bh.*`) -/
